@@ -311,7 +311,9 @@ func snippet(src string, off int) string {
 	return src[off:end]
 }
 
-var c20Prefixes = []string{"", "l1\nl2\n", "{# c1\nc2 #}\n", "{{ \"s1\ns2\" }}", "{{ \"s1\n#{a}\ns2\" }}\n", "é\n\n", "{% set q = 'x\ny' %}\n"}
+var c20Prefixes = []string{"", "l1\nl2\n", "{# c1\nc2 #}\n", "{{ \"s1\ns2\" }}", "{{ \"s1\n#{a}\ns2\" }}\n", "é\n\n", "{% set q = 'x\ny' %}\n",
+	// multi-byte characters after the last newline of a multi-line token, the construct under test on the same line
+	"l1\n» é ", "{# c1\n€ #}", "{{ \"s1\né€\" }}", "{% set q = 'x\n»' %}"}
 
 func c20NewlineSites(toks []stok) []site {
 	var res []site
@@ -521,7 +523,7 @@ func c20Levels(tier string) []core.Level {
 	}
 	items := c20Items()
 	lv := []core.Level{
-		{Name: fmt.Sprintf("node positions: corpus x 7 multi-line prefixes x every newline placement with <= %d deviation(s)", maxDev), Gen: func(emit func(core.Case)) {
+		{Name: fmt.Sprintf("node positions: corpus x 11 multi-line prefixes x every newline placement with <= %d deviation(s)", maxDev), Gen: func(emit func(core.Case)) {
 			for ii, it := range items {
 				sites := c20NewlineSites(stokens(it.src))
 				for pi := range c20Prefixes {
@@ -628,7 +630,7 @@ func init() {
 	core.Register(&core.Check{
 		ID:       "C20",
 		Category: "exploration",
-		Rule: "(a) corpus (one template per tag kind / expression form, three hosts, plus multi-line templates) x 7 multi-line prefixes (text, comment, string, interpolated string, multi-byte, multi-line tag) x every placement of a newline at a token boundary inside delimiters (<= 1 deviation, thorough <= 2): every anchored node of the public AST must report the line:column an independent tokeniser computes for its anchor token; " +
+		Rule: "(a) corpus (one template per tag kind / expression form, three hosts, plus multi-line templates) x 11 multi-line prefixes (text, comment, string, interpolated string, multi-line tag, multi-byte characters before and after the last newline of a multi-line token) x every placement of a newline at a token boundary inside delimiters (<= 1 deviation, thorough <= 2): every anchored node of the public AST must report the line:column an independent tokeniser computes for its anchor token; " +
 			"(b) every truncation offset inside a delimiter pair or open block must be rejected and (d) the reported position must be a token start or end of input; (c) one syntax error of each listed kind injected at every token boundary must be rejected with the error located at the injected token; " +
 			"(e) errors from named templates loaded directly / via include, extends, import, embed, use must identify the template. distinct = distinct source; non-trivial = multi-line source or an error case",
 		Assumptions: []string{
